@@ -128,12 +128,111 @@ pub fn drive(d: &mut Driver)
 	// larger jobs first
 	jobs.reverse();
 	d.phase("label/goto bodies", jobs);
+	// slice of larger sizes: sequences of groups, a group being one or two statements inside zero,
+	// one or two nested blocks of their own (up to 12 statements)
+	let ngroups = group_forests().len();
+	d.bound("sequences of groups (a group: 1-2 statements inside 0-2 blocks of its own)", json!({"two groups": "all", "three groups": "at most one group of two statements", "four groups": "single statements", "bodies": ngroups}));
+	let jobs: Vec<Value> = (0..ngroups).step_by(2000).map(|lo| json!({"groups": true, "lo": lo, "hi": (lo + 2000).min(ngroups)})).collect();
+	d.phase("labels and gotos in groups at different depths", jobs);
 	d.assume("model: engine/src/model/labels.rs, transcribed from docs/features.md (reverse label scope) and docs/errors.md E400/E420");
 	d.assume("bodies larger than the bound are not explored");
 }
 
+/// The bodies of the slice "labels and gotos in groups at different depths".
+pub fn group_forests() -> Vec<Vec<B>>
+{
+	// group kinds: (depth, atoms)
+	let mut singles: Vec<(usize, Vec<u8>)> = Vec::new();
+	let mut doubles: Vec<(usize, Vec<u8>)> = Vec::new();
+	for depth in 0..=2usize
+	{
+		for a in 0..ATOMS as u8
+		{
+			singles.push((depth, vec![a]));
+			for b in 0..ATOMS as u8
+			{
+				doubles.push((depth, vec![a, b]));
+			}
+		}
+	}
+	let render = |groups: &[&(usize, Vec<u8>)]| -> Vec<B> {
+		let mut forest = Vec::new();
+		for (depth, atoms) in groups
+		{
+			let inner: Vec<B> = atoms.iter().map(|a| B::Atom(*a)).collect();
+			if *depth == 0
+			{
+				forest.extend(inner);
+			}
+			else
+			{
+				let mut b = B::Block(inner);
+				for _ in 1..*depth
+				{
+					b = B::Block(vec![b]);
+				}
+				forest.push(b);
+			}
+		}
+		forest
+	};
+	let all: Vec<&(usize, Vec<u8>)> = singles.iter().chain(doubles.iter()).collect();
+	let mut out = Vec::new();
+	for g1 in &all
+	{
+		for g2 in &all
+		{
+			out.push(render(&[g1, g2]));
+		}
+	}
+	for (pos, _) in [0, 1, 2].iter().enumerate()
+	{
+		for d in &doubles
+		{
+			for s1 in &singles
+			{
+				for s2 in &singles
+				{
+					let groups: Vec<&(usize, Vec<u8>)> = match pos
+					{
+						0 => vec![d, s1, s2],
+						1 => vec![s1, d, s2],
+						_ => vec![s1, s2, d],
+					};
+					out.push(render(&groups));
+				}
+			}
+		}
+	}
+	for s1 in &singles
+	{
+		for s2 in &singles
+		{
+			for s3 in &singles
+			{
+				out.push(render(&[s1, s2, s3]));
+				for s4 in &singles
+				{
+					out.push(render(&[s1, s2, s3, s4]));
+				}
+			}
+		}
+	}
+	out
+}
+
 pub fn work(spec: &Value, w: &mut WorkerCtx)
 {
+	if spec.get("groups").is_some()
+	{
+		let all = group_forests();
+		for forest in &all[spec["lo"].as_u64().unwrap() as usize..spec["hi"].as_u64().unwrap() as usize]
+		{
+			w.result.transitions += 1;
+			judge(0, forest, w);
+		}
+		return;
+	}
 	if let Some(case) = spec.get("replay")
 	{
 		let variant = case["variant"].as_u64().unwrap() as usize;
